@@ -33,6 +33,7 @@ class FakeSock:
         self.sends = 0
         self.recvs = 0
         self.tls = False
+        self.dead = False        # a connection-level fault was reported on this descriptor (kernel dropped the connection)
         net.created.append(self)
 
     # ---- plumbing hio calls at set-up
@@ -55,8 +56,8 @@ class FakeSock:
         return self.local
 
     def getpeername(self):
-        if self.peer is None:
-            raise OSError(errno.ENOTCONN, 'not connected')
+        if self.peer is None or self.dead:
+            raise OSError(errno.ENOTCONN, 'not connected')      # as a real socket after a reset / before connect
         return self.peer
 
     def fileno(self):
@@ -244,18 +245,28 @@ class FakeNet:
         return real.inet_aton(host)
 
 
+class NullLogger:
+    """logging stub (formatting a message with a symbolic value would realise it; messages are not the subject)"""
+    def __getattr__(self, name):
+        return lambda *a, **k: None
+
+
 class Patch:
-    """context manager: bind FakeNet as `socket` in the given hio modules"""
+    """context manager: bind FakeNet as `socket` (and a null logger) in the given hio modules"""
     def __init__(self, net, *mods):
         self.net, self.mods, self.saved = net, mods, []
 
     def __enter__(self):
         for m in self.mods:
-            self.saved.append((m, m.socket))
+            self.saved.append((m, m.socket, getattr(m, 'logger', None)))
             m.socket = self.net
+            if hasattr(m, 'logger'):
+                m.logger = NullLogger()
         return self.net
 
     def __exit__(self, *a):
-        for m, s in self.saved:
+        for m, s, lg in self.saved:
             m.socket = s
+            if lg is not None:
+                m.logger = lg
         return False
